@@ -1,4 +1,5 @@
 import GdVerif.Lemmas.ValveSafe
+import GdVerif.Lemmas.Unreal2Safe
 /-
   C01 — Hostile server responses never crash or hang a query.
 
@@ -47,6 +48,7 @@ theorem C01_reader (e : Endian) (ops : List ROp) (data : Bytes) : (ROp.afterAll 
     · exact Safe.bind (safe_switchEndianChunk _) fun _ => Safe.pure _
     · exact Safe.bind Mc.safe_getVarint fun _ => Safe.pure _
     · exact Safe.bind Mc.safe_getString fun _ => Safe.pure _
+    · exact Safe.bind Unreal2.safe_readU2Str fun _ => Safe.pure _
   generalize Buf.new data = b
   induction ops generalizing b with
   | nil => rfl
